@@ -197,6 +197,7 @@ pub struct Model<'a> {
     now: u64,
     idx: usize,
     drain_started: bool,
+    stuck_reported: bool,
     token_format_ok: bool,
 }
 
@@ -1106,11 +1107,47 @@ impl<'a> Model<'a> {
                         // a delete of the same name that began while this create was in flight may
                         // already have removed what this call created
                         let raced = self.tr.calls.iter().any(|o| matches!(&o.req, Req::DeleteSub { name: dn } if dn == name) && o.invoke_idx > c.invoke_idx && o.invoke_idx < idx);
+                        // the forced case: an OK delete that found no known instance when it was made,
+                        // began and returned inside this create's interval, and overlapped no other
+                        // create of the name, removed what this call created
+                        let by: Option<(usize, usize)> = self
+                            .tr
+                            .calls
+                            .iter()
+                            .filter(|o| matches!(&o.req, Req::DeleteSub { name: dn } if dn == name))
+                            .filter(|o| o.invoke_idx > c.invoke_idx && o.done.as_ref().map(|d| d.0 < idx && d.2.code() == 0).unwrap_or(false))
+                            .filter(|o| !self.delete_target.contains_key(&o.id))
+                            .filter(|o| {
+                                let (di, dr) = (o.invoke_idx, o.done.as_ref().unwrap().0);
+                                !self.tr.calls.iter().any(|x| x.id != c.id && matches!(&x.req, Req::CreateSub { name: xn, .. } if xn == name) && x.invoke_idx < dr && x.done.as_ref().map(|d| d.0 > di).unwrap_or(true))
+                            })
+                            .map(|o| (o.invoke_idx, o.done.as_ref().unwrap().0))
+                            .next();
+                        let prev = self.snames.get(name).and_then(|n| n.inst).filter(|p| self.subs[*p].del_r.is_none());
                         let n = self.snames.get_mut(name).unwrap();
-                        n.inst = Some(id);
-                        n.unknown = raced;
-                        if raced {
+                        if let Some((di, dr)) = by {
+                            // created and deleted again before this response: the name is what
+                            // the later calls made of it
+                            self.subs[id].del_i = Some(di);
+                            self.subs[id].del_r = Some(dr);
+                            if prev.is_none() {
+                                n.inst = None;
+                            }
+                        } else if let Some(p) = prev {
+                            // two successful creates of one name; which of the two instances the
+                            // racing delete removed is not determined by the responses
+                            n.inst = Some(id);
+                            n.unknown = true;
                             self.subs[id].del_i = Some(c.invoke_idx);
+                            if self.subs[p].del_i.is_none() {
+                                self.subs[p].del_i = Some(c.invoke_idx);
+                            }
+                        } else {
+                            n.inst = Some(id);
+                            n.unknown = raced;
+                            if raced {
+                                self.subs[id].del_i = Some(c.invoke_idx);
+                            }
                         }
                         self.check_view(id, view, "CreateSubscription", c.invoke_idx);
                         // publishes that overlapped this create (also ones that have returned
@@ -1232,16 +1269,16 @@ impl<'a> Model<'a> {
                         }
                         let waited = self.now.saturating_sub(c.invoke_t);
                         if recvs.is_empty() && !*ri {
-                            let deleted = self
-                                .subs
-                                .iter()
-                                .any(|s| s.name == *sub && s.del_i.map(|d| d < idx).unwrap_or(false) && s.ci < c.invoke_idx);
+                            // the incarnation(s) of the name the call can have waited on: created before
+                            // the call, and not yet gone (delete returned) when the call was made
+                            let mine = |s: &SubInst| s.name == *sub && s.ci < c.invoke_idx && s.del_r.map(|d| d > c.invoke_idx).unwrap_or(true);
+                            let deleted = self.subs.iter().any(|s| mine(s) && s.del_i.map(|d| d < idx).unwrap_or(false));
                             if waited < 300 * SEC && !deleted {
                                 self.v("empty_blocking_pull", &["C15"], format!("blocking Pull on {} returned an empty response after {} ns (< 300 s)", sub, waited));
                             }
                             if deleted {
                                 // the subscription it waited on is gone: an OK(empty) after the limit means it kept waiting
-                                let dr = self.subs.iter().filter(|s| s.name == *sub && s.ci < c.invoke_idx).filter_map(|s| s.del_r).min();
+                                let dr = self.subs.iter().filter(|s| mine(s)).filter_map(|s| s.del_r).min();
                                 if let Some(dr) = dr {
                                     if dr < idx && waited >= 300 * SEC {
                                         let dt = self.tr.events[dr].t;
